@@ -59,6 +59,11 @@ type descriptor struct {
 	LoopBack bool `json:"loopBack,omitempty"`
 	// FloatRes: the activity also declares the float result "fr"
 	FloatRes bool `json:"floatRes,omitempty"`
+	// Place: 0 = everything at process level; 1 / 2 = the activity sits inside
+	// one / two nested embedded sub-processes, the gateway and the downstream
+	// tasks that read what it stored sit outside; 3 = the activity sits at
+	// process level, the gateway and the downstream tasks inside a sub-process
+	Place int `json:"place,omitempty"`
 }
 
 type built struct {
@@ -70,6 +75,25 @@ type built struct {
 func build(d descriptor) *built {
 	b := gen.NewB()
 	st := b.Add(gen.KStart)
+	// prev: the node the token continues from after the activity, in builder b
+	var after *gen.Node
+	outer := b
+	if d.Place == 1 || d.Place == 2 {
+		for lvl := 0; lvl < d.Place; lvl++ {
+			sp := b.Add(gen.KSub)
+			b.Connect(st, sp)
+			if lvl == 0 {
+				after = sp
+			} else {
+				en := b.Add(gen.KEnd)
+				b.Connect(sp, en)
+			}
+			ib := b.Sub()
+			sp.Inner = ib.G
+			b = ib
+			st = b.Add(gen.KStart)
+		}
+	}
 	a := b.Add(gen.KTask)
 	a.TaskKind = d.TaskKind
 	a.Results = append([]string(nil), d.Declared...)
@@ -86,8 +110,26 @@ func build(d descriptor) *built {
 		bt.prog = &gen.Program{G: b.G, DefaultLang: "expr"}
 		return bt
 	}
+	if after != nil {
+		// the activity ends its sub-process(es); the readers follow outside
+		en := b.Add(gen.KEnd)
+		b.Connect(a, en)
+		b = outer
+	} else {
+		after = a
+	}
+	if d.Place == 3 {
+		sp := b.Add(gen.KSub)
+		b.Connect(after, sp)
+		en := b.Add(gen.KEnd)
+		b.Connect(sp, en)
+		ib := b.Sub()
+		sp.Inner = ib.G
+		b = ib
+		after = b.Add(gen.KStart)
+	}
 	x := b.Add(gen.KXor)
-	b.Connect(a, x)
+	b.Connect(after, x)
 	for i := 0; i < 3; i++ {
 		if d.LoopBack && i == 2 {
 			f := b.Connect(x, a)
@@ -109,7 +151,7 @@ func build(d descriptor) *built {
 			f.Formal = true
 		}
 	}
-	bt.prog = &gen.Program{G: b.G, DefaultLang: "expr"}
+	bt.prog = &gen.Program{G: outer.G, DefaultLang: "expr"}
 	return bt
 }
 
@@ -484,7 +526,13 @@ func runCase(d descriptor) *result {
 			if c.Kind == "retry" {
 				if len(got) == 1 {
 					st2.rerequest++
-					if st2.rerequest+st.rerequest > c.Retries {
+					used := st.rerequest
+					if d.Place == 3 {
+						// inside the sub-process the downstream task is run by the
+						// sub-process's own token, with a budget of its own
+						used = 0
+					}
+					if st2.rerequest+used > c.Retries {
 						return fail("retry-bound", fmt.Sprintf("downstream task re-requested %d times with retries=%d (token already used %d)", st2.rerequest, c.Retries, st.rerequest), gs)
 					}
 					curDown = got[0]
@@ -594,6 +642,26 @@ func drawDescriptor(rt *rapid.T) descriptor {
 		}
 		if len(d.Declared) == 0 || d.Declared[0] != "sel" {
 			d.Declared = append([]string{"sel"}, d.Declared...)
+		}
+	}
+	if !d.DeadEnd && !d.LoopBack {
+		// a third of the plain shapes put a sub-process boundary between the
+		// activity that stores the results and the condition / tasks reading them
+		d.Place = rapid.SampledFrom([]int{0, 0, 0, 0, 1, 2, 3, 3}).Draw(rt, "place")
+		if d.Place == 1 || d.Place == 2 {
+			// inside a sub-process a token that stops (exit, exhausted retries)
+			// completes the sub-process and the outer token continues: another
+			// story than the one this check tells - such answers become skip / err
+			for i := range d.Attempts {
+				for j := range d.Attempts[i].Calls {
+					switch d.Attempts[i].Calls[j].Kind {
+					case "exit":
+						d.Attempts[i].Calls[j].Kind = "skip"
+					case "retry":
+						d.Attempts[i].Calls[j].Kind = "err"
+					}
+				}
+			}
 		}
 	}
 	ns := rapid.IntRange(0, 2).Draw(rt, "secondAttempts")
